@@ -65,6 +65,14 @@ NGrp(sp)       == IF IsVF(sp) THEN sp.n ELSE Dim(sp)
 GSq(sp, x, i)  == IF IsVF(sp) THEN GrpSq(sp, x, i) ELSE QSq(x[i])
 GIdx(sp, i)    == IF IsVF(sp) THEN {(k - 1) * sp.n + i : k \in 1..sp.m} ELSE {i}
 
+\* point-wise 1- and max-norm of the vector at point i (rational for every rational field)
+GAbs1(sp, x, i) == QSumSeq([k \in 1..sp.m |-> QAbs(x[(k - 1) * sp.n + i])])
+GMaxA(sp, x, i) == QMaxSeq([k \in 1..sp.m |-> QAbs(x[(k - 1) * sp.n + i])])
+\* point-wise exponent of the group functionals, carried in the field s: 1 -> 1, Inf -> max, anything else -> 2
+PExp(f)        == IF f.s = <<1, 1>> THEN 1 ELSE IF f.s = <<1, 0>> THEN 3 ELSE 2
+\* KL prior: absent (v = <<>>) means the one-element
+PriorAt(f, i)  == IF f.v = <<>> THEN <<1, 1>> ELSE f.v[i]
+
 SpRn(n)        == [kind |-> "rn",    m |-> 1, n |-> n, W |-> RConst(n, QOne)]
 SpRnW(n, c)    == [kind |-> "rnw",   m |-> 1, n |-> n, W |-> RConst(n, c)]
 SpDiscr(n, V)  == [kind |-> "discr", m |-> 1, n |-> n, W |-> RConst(n, V)]
@@ -143,8 +151,9 @@ Val(sp, f, x) ==
     [] f.op = "L2"    -> XSqrt(NormSq(sp, x))
     [] f.op = "L2sq"  -> NormSq(sp, x)
     [] f.op = "Linf"  -> MaxAbs(x)                                       \* documented: un-weighted max
-    [] f.op = "GroupL1" ->
-         LET t == [i \in 1..NGrp(sp) |-> XSqrt(GSq(sp, x, i))]
+    [] f.op = "GroupL1" ->      \* sum_i w_i |x(i)|_p , p the point-wise exponent
+         LET t == [i \in 1..NGrp(sp) |-> IF PExp(f) = 1 THEN GAbs1(sp, x, i)
+                                         ELSE IF PExp(f) = 3 THEN GMaxA(sp, x, i) ELSE XSqrt(GSq(sp, x, i))]
          IN IF \E i \in 1..NGrp(sp) : ~XKnown(t[i]) THEN NaN
             ELSE QSumSeq([i \in 1..NGrp(sp) |-> QMul(sp.W[i], t[i])])
     [] f.op = "Huber" ->
@@ -159,14 +168,16 @@ Val(sp, f, x) ==
     [] f.op = "IndBall1"   -> Ind(QLe(AbsSumW(sp, x), QOne))
     [] f.op = "IndBall2"   -> Ind(QLe(NormSq(sp, x), QOne))
     [] f.op = "IndBallInf" -> Ind(QLe(MaxAbs(x), QOne))
-    [] f.op = "IndGroupBall" -> Ind(\A i \in 1..NGrp(sp) : QLe(GSq(sp, x, i), QOne))
+    [] f.op = "IndGroupBall" ->  \* max_i |x(i)|_p <= 1
+         Ind(\A i \in 1..NGrp(sp) : QLe(IF PExp(f) = 1 THEN GAbs1(sp, x, i)
+                                        ELSE IF PExp(f) = 3 THEN GMaxA(sp, x, i) ELSE GSq(sp, x, i), QOne))
     [] f.op = "Quad"  ->      \* <x, A x> + <b, x> + c , A = diag(v) (absent if v = <<>>)
          XAdd(XAdd(IF f.v = <<>> THEN QZero ELSE Inner(sp, x, RMul(f.v, x)),
                    IF f.u = <<>> THEN QZero ELSE Inner(sp, f.u, x)), f.c)
     [] f.op = "Const" -> f.c
     [] f.op = "KL"    ->      \* sum w (x - g + g ln(g/x)): rational only where the log vanishes
          IF \E i \in 1..Len(x) : x[i][1] <= 0 THEN Inf
-         ELSE IF x = f.v THEN QZero ELSE NaN
+         ELSE IF \A i \in 1..Len(x) : x[i] = PriorAt(f, i) THEN QZero ELSE NaN
     [] f.op = "KLcc"  ->      \* - sum w g ln(1 - x)
          IF \E i \in 1..Len(x) : QGe(x[i], QOne) THEN Inf
          ELSE IF RIsZero(x) THEN QZero ELSE NaN
@@ -232,8 +243,15 @@ InSubdiff(sp, f, x, g) ==
               /\ AbsSumW(sp, g) = QOne
     [] f.op = "GroupL1" ->
          \A i \in 1..NGrp(sp) :
-           LET q == GSq(sp, x, i) IN
-           IF q = QZero THEN QLe(GSq(sp, g, i), QOne) ELSE UnitDir(x, g, GIdx(sp, i), q)
+           IF PExp(f) = 1 THEN
+             \A j \in GIdx(sp, i) : IF x[j] = QZero THEN QLe(QAbs(g[j]), QOne) ELSE g[j] = QSign(x[j])
+           ELSE IF PExp(f) = 3 THEN
+             LET M == GMaxA(sp, x, i) IN
+             IF M = QZero THEN QLe(GAbs1(sp, g, i), QOne)
+             ELSE /\ \A j \in GIdx(sp, i) : IF QAbs(x[j]) = M THEN SgnI(g[j]) * SgnI(x[j]) >= 0 ELSE g[j] = QZero
+                  /\ GAbs1(sp, g, i) = QOne
+           ELSE LET q == GSq(sp, x, i) IN
+                IF q = QZero THEN QLe(GSq(sp, g, i), QOne) ELSE UnitDir(x, g, GIdx(sp, i), q)
     [] f.op = "Huber" ->
          \A i \in 1..NGrp(sp) :
            LET q == GSq(sp, x, i) IN
@@ -271,18 +289,31 @@ InSubdiff(sp, f, x, g) ==
          ELSE ConeDir(x, g, 1..N)
     [] f.op = "IndGroupBall" ->
          \A i \in 1..NGrp(sp) :
-           LET q == GSq(sp, x, i) IN
-           IF QLt(QOne, q) THEN FALSE
-           ELSE IF QLt(q, QOne) THEN \A j \in GIdx(sp, i) : g[j] = QZero
-           ELSE ConeDir(x, g, GIdx(sp, i))
+           IF PExp(f) = 1 THEN       \* normal cone of the point-wise l1 ball
+             LET s == GAbs1(sp, x, i) IN
+             IF QLt(QOne, s) THEN FALSE
+             ELSE IF QLt(s, QOne) THEN \A j \in GIdx(sp, i) : g[j] = QZero
+             ELSE LET j0 == CHOOSE j \in GIdx(sp, i) : x[j] # QZero
+                      lam == QMul(g[j0], QSign(x[j0]))
+                  IN /\ lam[1] >= 0
+                     /\ \A j \in GIdx(sp, i) : IF x[j] = QZero THEN QLe(QAbs(g[j]), lam)
+                                               ELSE g[j] = QMul(lam, QSign(x[j]))
+           ELSE IF PExp(f) = 3 THEN  \* point-wise max-norm ball = box [-1, 1] in every entry
+             \A j \in GIdx(sp, i) :
+               /\ QLe(QAbs(x[j]), QOne)
+               /\ (IF x[j] = QI(-1) THEN g[j][1] <= 0 ELSE IF x[j] = QOne THEN g[j][1] >= 0 ELSE g[j] = QZero)
+           ELSE LET q == GSq(sp, x, i) IN
+                IF QLt(QOne, q) THEN FALSE
+                ELSE IF QLt(q, QOne) THEN \A j \in GIdx(sp, i) : g[j] = QZero
+                ELSE ConeDir(x, g, GIdx(sp, i))
     [] f.op = "Quad" ->       \* gradient (A + A*) x + b with A = diag(v) self-adjoint
          g = Strict([i \in 1..N |-> QAdd(IF f.v = <<>> THEN QZero ELSE QMul(QI(2), QMul(f.v[i], x[i])),
                                           IF f.u = <<>> THEN QZero ELSE f.u[i])])
     [] f.op = "Const" -> RIsZero(g)
     [] f.op = "KL" ->
-         \A i \in 1..N : x[i][1] > 0 /\ g[i] = QSub(QOne, QDiv(f.v[i], x[i]))
+         \A i \in 1..N : x[i][1] > 0 /\ g[i] = QSub(QOne, QDiv(PriorAt(f, i), x[i]))
     [] f.op = "KLcc" ->
-         \A i \in 1..N : QLt(x[i], QOne) /\ g[i] = QDiv(f.v[i], QSub(QOne, x[i]))
+         \A i \in 1..N : QLt(x[i], QOne) /\ g[i] = QDiv(PriorAt(f, i), QSub(QOne, x[i]))
   ELSE  (* ---- calculus of sub-differentials (exact for these rules) ---- *)
   CASE f.op = "Translate" -> InSubdiff(sp, Arg(f), RSub(x, f.u), g)
     [] f.op = "ArgScale"  -> InSubdiff(sp, Arg(f), RScal(f.s, x), RScal(QInv(f.s), g))
@@ -394,6 +425,7 @@ PolyDeg(sp, f) ==
     [] f.op = "Huber" -> IF IsVF(sp) THEN 99 ELSE 2
     [] f.op = "Quad" -> IF f.v = <<>> THEN 1 ELSE 2
     [] f.op = "Const" -> 0
+    [] f.op = "GroupL1" -> IF PExp(f) = 2 THEN 99 ELSE 1
     [] f.op \in {"Translate", "ArgScale", "LScale", "RVec", "AddConst", "Comp"} -> PolyDeg(sp, Arg(f))
     [] f.op = "QuadPert" -> Max2(PolyDeg(sp, Arg(f)), IF f.s = QZero THEN 1 ELSE 2)
     [] f.op = "Bregman"  -> Max2(PolyDeg(sp, Arg(f)), 1)
@@ -417,7 +449,15 @@ Piece(sp, f, x) ==
     [] f.op \in {"L2sq", "Quad", "Const"} -> <<>>
     \* smooth (not polynomial) pieces: used by the relational clauses only
     [] f.op = "L2" -> IF RIsZero(x) THEN <<Edge>> ELSE <<>>
-    [] f.op = "GroupL1" -> [i \in 1..NGrp(sp) |-> IF GSq(sp, x, i) = QZero THEN Edge ELSE 1]
+    [] f.op = "GroupL1" ->
+         IF PExp(f) = 1 THEN [j \in 1..Len(x) |-> IF x[j] = QZero THEN Edge ELSE SgnI(x[j])]
+         ELSE IF PExp(f) = 3 THEN
+           [i \in 1..NGrp(sp) |->
+              LET M == GMaxA(sp, x, i)
+                  A == {j \in GIdx(sp, i) : QAbs(x[j]) = M}
+              IN IF M = QZero \/ Cardinality(A) # 1 THEN Edge
+                 ELSE LET j == CHOOSE j \in A : TRUE IN 2 * j * SgnI(x[j])]
+         ELSE [i \in 1..NGrp(sp) |-> IF GSq(sp, x, i) = QZero THEN Edge ELSE 1]
     [] f.op = "KL"   -> IF \E i \in 1..Len(x) : x[i][1] <= 0 THEN <<Edge>> ELSE <<>>
     [] f.op = "KLcc" -> IF \E i \in 1..Len(x) : QGe(x[i], QOne) THEN <<Edge>> ELSE <<>>
     [] f.op = "Quot" -> LET b == Val(sp, Arg2(f), x) IN
@@ -438,7 +478,7 @@ RECURSIVE Differentiable(_, _, _)
 Differentiable(sp, f, x) ==
   CASE f.op = "L1" -> RNoZero(x)
     [] f.op = "L2" -> ~RIsZero(x)
-    [] f.op = "GroupL1" -> \A i \in 1..NGrp(sp) : GSq(sp, x, i) # QZero
+    [] f.op = "GroupL1" -> \A k \in 1..Len(Piece(sp, f, x)) : Piece(sp, f, x)[k] # Edge
     [] f.op \in {"L2sq", "Huber", "Quad", "Const"} -> TRUE
     [] f.op = "KL"   -> \A i \in 1..Len(x) : x[i][1] > 0
     [] f.op = "KLcc" -> \A i \in 1..Len(x) : QLt(x[i], QOne)
@@ -489,6 +529,17 @@ Grad(sp, f, x) ==
   Strict([i \in 1..Len(x) |-> LET dd == DirDeriv(sp, f, x, UnitVec(Len(x), i))
                               IN IF XKnown(dd) THEN QDiv(dd, sp.W[i]) ELSE NaN])
 GradKnown(g) == \A i \in 1..Len(g) : XKnown(g[i])
+
+(* ----- is_linear: the flag claims a linear map; the VALUES can refute it ----- *)
+\* (weak reading: the specification never asserts linearity, it only exhibits lattice points where
+\*  additivity, homogeneity or f(0) = 0 fail)
+LinearRefutedAt(sp, f, x, y) ==
+  LET a == Val(sp, f, x)  b == Val(sp, f, y)  c == Val(sp, f, RAdd(x, y))
+      d == Val(sp, f, RScal(QI(2), x))  z == Val(sp, f, RConst(Len(x), QZero))
+  IN \/ XKnown(a) /\ XKnown(b) /\ XKnown(c) /\ ~Big(a) /\ ~Big(b) /\ c # QAdd(a, b)
+     \/ XKnown(a) /\ XKnown(d) /\ ~Big(a) /\ d # QMul(QI(2), a)
+     \/ XKnown(z) /\ z # QZero
+     \/ a = Inf \/ b = Inf
 
 (* ------------------- Lipschitz bound: checked, never computed ---------- *)
 LipschitzHolds(sp, L, x, y, gx, gy) ==
